@@ -45,6 +45,7 @@ Section Trans.
       kfind vc_id (vc_id c) (v_cls v) = Some c ->
       kfind vo_other (vo_other o) (vc_oofs c) = Some o -> vo_live o = true ->
       kfind vl_other (vl_other lf) (vo_lofs o) = Some lf ->
+      (unlock = false -> (vl_count lf <= 0)%Z) ->       (* FREE_STATEID: gated by lockCount *)
       vtr v (vput v (mkVC (vc_id c)
                           (kupd vo_other (mkVO (vo_other o) (vo_handle o) true
                                                (kdel vl_other (vl_other lf) (vo_lofs o))) (vc_oofs c))
